@@ -1,13 +1,14 @@
 SPECIFICATION TraceSpec
 CONSTANTS
-  IfBase <- FIfBase  IfAdd <- FIfAdd  IfCap <- FIfCap
+  IfBase <- SIfBase  IfAdd <- SIfAdd  IfCap <- SIfCap
   BuiltinIf <- FBuiltinIf
-  DynBase <- FDynBase  DynCap <- FDynCap
-  MetaBase <- FMetaBase  MetaCap <- FMetaCap
-  GenBase <- FGenBase  GenCap <- FGenCap
+  DynBase <- SDynBase  DynCap <- SDynCap
+  MetaBase <- SMetaBase  MetaCap <- SMetaCap
+  GenBase <- SGenBase  GenCap <- SGenCap
   Chunk = 30
-  PtrSize <- FPtr
-  Fixed <- FFixed
+  PtrSize <- SPtr
+  FixedSize <- SFixedSize
+  FixedManaged <- SFixedManaged
   Optional = {}
   Names = {}
   Sizes = {}
